@@ -86,6 +86,34 @@ class Script:
             p.stop()
 
 
+class Recorder:
+    """Lets the real numpy.random.rand / poisson run and records what they returned (for replays)."""
+
+    def __enter__(self):
+        self.us, self.ns = [], []
+        r0, p0 = np.random.rand, np.random.poisson
+
+        def rand(*a):
+            v = r0(*a)
+            if not a:
+                self.us.append(float(v))
+            return v
+
+        def poisson(*a, **k):
+            v = p0(*a, **k)
+            if np.ndim(v) == 0:
+                self.ns.append(int(v))
+            return v
+        self.p = [mock.patch("numpy.random.rand", rand), mock.patch("numpy.random.poisson", poisson)]
+        for p in self.p:
+            p.start()
+        return self
+
+    def __exit__(self, *a):
+        for p in self.p:
+            p.stop()
+
+
 def model_class(pp, model, secondaries, log=None):
     base = getattr(pp, MODELS[model])
     ns = {"include_secondaries": secondaries}
@@ -528,6 +556,64 @@ def tree_property(ev, ref, particle, ident):
     return bad[:3]
 
 
+def run_record(pp, rec):
+    """Execute a recorded history on a real Event; first failure of the property (fresh histories) or None."""
+    made = {}
+
+    def particle(i):
+        if i not in made:
+            made[i] = pp.Particle("nu_e", (0, 0, -i), (0, 0, 1), 1e6 + i, interaction_model=pp.Interaction)
+        return made[i]
+    roots = rec["roots"]
+    ev = pp.Event(particle(0)) if rec.get("single_root") and len(roots) == 1 else pp.Event([particle(i) for i in roots])
+    ref = RefTree(roots)
+    for o in rec["ops"]:
+        if o[0] != "add":
+            continue
+        parent, cs, form = o[1], o[2], o[3]
+        if form == "single" and len(cs) != 1:
+            form = "list"
+        objs = [particle(c) for c in cs]
+        try:
+            ev.add_children(particle(parent), objs[0] if form == "single" else (tuple(objs) if form == "tuple" else objs))
+        except ValueError:
+            if parent in ref.parent:
+                return "add_children(%d, %s) raised ValueError although %d is in the event" % (parent, cs, parent)
+            continue
+        if parent not in ref.parent:
+            return "add_children(%d, %s) was accepted although %d is not in the event" % (parent, cs, parent)
+        if any(c in ref.parent for c in cs) or len(set(cs)) != len(cs):
+            return None          # not a fresh history: outside the property
+        ref.add(parent, cs)
+        ident = {id(v): k for k, v in made.items()}
+        bad = tree_property(ev, ref, particle, ident)
+        if bad:
+            return bad[0]
+    return None
+
+
+def shrink_record(pp, rec):
+    """Greedy minimisation of a failing history (drop operations, then children)."""
+    cur = {"roots": rec["roots"], "single_root": rec.get("single_root", False), "ops": [o for o in rec["ops"] if o[0] == "add"]}
+    if run_record(pp, cur) is None:
+        return rec
+    changed = True
+    while changed:
+        changed = False
+        for i in range(len(cur["ops"]) - 1, -1, -1):
+            cand = dict(cur, ops=cur["ops"][:i] + cur["ops"][i + 1:])
+            if run_record(pp, cand) is not None:
+                cur, changed = cand, True
+        for i in range(len(cur["ops"])):
+            o = cur["ops"][i]
+            for j in range(len(o[2]) - 1, -1, -1):
+                no = [o[0], o[1], o[2][:j] + o[2][j + 1:], "list" if o[3] == "single" else o[3]]
+                cand = dict(cur, ops=cur["ops"][:i] + [no] + cur["ops"][i + 1:])
+                if run_record(pp, cand) is not None:
+                    cur, changed, o = cand, True, no
+    return cur
+
+
 def corr_tree(ctx, pp, escalate):
     rng = ctx.rng
     ntrees = ctx.n(300, 6000) * (3 if escalate else 1)
@@ -546,9 +632,13 @@ def corr_tree(ctx, pp, escalate):
             if o[0] == "add":
                 dist["forms"][o[3]] = dist["forms"].get(o[3], 0) + 1
         dist["rejected_adds"] += exp.count("AErr")
-        for f in failures[:1]:
-            ctx.fail("tree:%s" % json.dumps(rec, sort_keys=True)[:300], "event tree inconsistent after history %s: %s" % (json.dumps(rec)[:400], f),
-                     {"kind": "tree", "history": rec, "what": failures})
+        if failures and dist.get("witnesses", 0) < 3:
+            dist["witnesses"] = dist.get("witnesses", 0) + 1
+            small = shrink_record(pp, rec)
+            what = run_record(pp, small) or failures[0]
+            ctx.fail("tree:%s" % json.dumps(small, sort_keys=True)[:300],
+                     "event tree inconsistent after the add_children history %s: %s" % (json.dumps(small)[:500], what),
+                     {"kind": "tree", "history": small, "what": [what], "found_in": rec})
     imports = "From Coq Require Import List ZArith.\nFrom PyrexModel Require Import EventTree.\nImport ListNotations.\n"
     vals = ctx.coq_eval_exprs(imports, exprs, chunk=200)
     bad = 0
@@ -582,11 +672,13 @@ def probes(ctx, pp, heavy):
                     nc = 0
                     for d in range(ndraw):
                         try:
-                            with np.errstate(all="ignore"):
+                            with Recorder() as rec, np.errstate(all="ignore"):
                                 p = pp.Particle(pidname, (0, 0, -100), (0, 0, 1), energy, interaction_model=cls)
                         except TypeError:
                             continue      # 1000 rejected secondary draws (documented, excluded)
-                        check_interaction(ctx, p, model, pidname, energy, secondaries, None, sum_tol)
+                        check_interaction(ctx, p, model, pidname, energy, secondaries,
+                                          {"model": model, "pid": pidname, "energy": energy, "kind_in": None, "secondaries": secondaries,
+                                           "real_draws": True, "us_full": rec.us, "ns_full": rec.ns}, sum_tol)
                         nc += p.interaction.kind.value == 2
                         stats["draws"] += 1
                         ctx.case(key=("probe", model, pidname, energy, secondaries, d), nontrivial=False)
@@ -684,10 +776,81 @@ def check_values(ctx, kind, y, em, had, model, pidname, energy, secondaries, met
         ctx.fail("nc-fractions:" + tag, "neutral current: (em, had) = (%r, %r), expected (0, y=%r)" % (em, had, y), rep)
     if kind == 1 and pidname in ("nu_e", "nu_e_bar") and not (abs(em + had - 1) <= 2.3e-16 and had == y):
         ctx.fail("cc-electron-fractions:" + tag, "charged-current electron neutrino: em+had = %r (em=%r had=%r y=%r), expected exactly 1" % (em + had, em, had, y), rep)
-    if kind == 1 and pidname not in ("nu_e", "nu_e_bar"):
-        if not ((em == 0 and had == y) or (em + had <= (1 - y) * (1 + 1e-15) and em + had >= y * (1 - 1e-15) and secondaries)):
-            ctx.fail("cc-secondaries:" + tag, "charged current %s: (em, had) = (%r, %r) is neither the primary (0, y=%r) nor secondaries within the lepton energy (1-y)" % (
-                pidname, em, had, y), rep)
+
+
+
+# published distributions, typed here independently of the source (CTW 2011 eqs. 8, 14-18; GQRS as in icemc)
+def ctw_c1(low, kind, pid, eps):
+    if low:
+        a0, a1, a2, a3 = 0.0, 0.0941, 4.72, 0.456
+    elif kind == 1:
+        a0, a1, a2, a3 = (-0.008, 0.26, 3.0, 1.7) if pid > 0 else (-0.0026, 0.085, 4.1, 1.7)
+    else:
+        a0, a1, a2, a3 = -0.005, 0.23, 3.0, 1.7
+    return a0 - a1 * math.exp(-(eps - a2) / a3)
+
+
+def distribution_probes(ctx, pp):
+    """Deterministic: with the uniform variate r scripted, the returned inelasticity y must satisfy
+    F(y) = r for the published cumulative distribution F, and the CC/NC choice must flip exactly at
+    the published neutral-current fraction."""
+    rs = [0.0, TINY, 1e-9, 1e-3, 0.01, 0.1, 0.25, 0.5, 0.75, 0.9, 0.99, 1 - 1e-6, 1 - 1e-12, 1 - TINY]
+    energies = [1e3, 3e4, 1e6, 2.2e7, 1e9, 4.7e10, 1e12]
+    for pidname, pid in PIDS.items():
+        for energy in energies:
+            eps = math.log10(energy)
+            # CC/NC threshold
+            for model, thr_nc in (("CTW", 0.252162 + 0.0256 * math.log(eps - 1.76)), ("GQRS", None)):
+                for d in (-1e-9, 1e-9):
+                    u = (thr_nc if model == "CTW" else 0.6865254) + d
+                    o = one_interaction(pp, model, pidname, energy, None, False, [u, 0.5, 0.5, 0.5], [], fallback_seed=1)
+                    want = (2 if d < 0 else 1) if model == "CTW" else (1 if d < 0 else 2)
+                    ctx.case(key=("threshold", model, pidname, energy, d), nontrivial=False)
+                    if not o["ok"] or o["kind"] != want:
+                        ctx.fail("nc-threshold:%s:%s:%r:%r" % (model, pidname, energy, d),
+                                 "%s %s at %r GeV: draw %r gives interaction kind %r, the published neutral-current fraction %s demands %r" % (
+                                     model, pidname, energy, u, o.get("kind"), thr_nc if model == "CTW" else "1-0.6865254", want),
+                                 {"kind": "interaction", "model": model, "pid": pidname, "energy": energy, "kind_in": None, "secondaries": False,
+                                  "us_full": [u, 0.5, 0.5, 0.5], "ns_full": []})
+            for kind, kname in ((1, "cc"), (2, "nc")):
+                for r in rs:
+                    # GQRS
+                    o = one_interaction(pp, "GQRS", pidname, energy, kname, False, [r, 0.5, 0.5], [], fallback_seed=1)
+                    ctx.case(key=("cdf", "GQRS", pidname, energy, kname, r), nontrivial=False)
+                    if o["ok"]:
+                        y = o["y"]
+                        back = (math.exp(-y ** 0.4) - 1 / math.e) / (1 - 1 / math.e) if y >= 0 else float("nan")
+                        if not abs(back - r) <= 1e-9:
+                            ctx.fail("gqrs-cdf:%s:%r:%s:%r" % (pidname, energy, kname, r),
+                                     "GQRS inelasticity %r for draw r=%r: the published distribution gives r back as %r" % (y, r, back),
+                                     {"kind": "interaction", "model": "GQRS", "pid": pidname, "energy": energy, "kind_in": kname, "secondaries": False,
+                                      "us_full": [r, 0.5, 0.5], "ns_full": []})
+                    # CTW, both regions (u1 = 0 selects the low-y region whenever it has positive probability)
+                    thr = 0.128 * math.sin(-0.197 * (eps - 21.8))
+                    for u1 in (0.0, 0.999):
+                        low = u1 < thr
+                        o = one_interaction(pp, "CTW", pidname, energy, kname, False, [u1, r, 0.5, 0.5], [], fallback_seed=1)
+                        ctx.case(key=("cdf", "CTW", pidname, energy, kname, r, u1), nontrivial=False)
+                        if not o["ok"]:
+                            continue
+                        y = o["y"]
+                        c1 = ctw_c1(low, kind, pid, eps)
+                        c2 = 2.55 - 0.0949 * eps
+                        ymin, ymax = (0.0, 1e-3) if low else (1e-3, 1.0)
+                        if low:
+                            pw = 1 - 1 / c2
+                            F = ((y - c1) ** pw - (ymin - c1) ** pw) / ((ymax - c1) ** pw - (ymin - c1) ** pw) if y > c1 else float("nan")
+                            # conditioning of F near y=0 where (y-c1) ~ -c1 is tiny
+                            tol = 1e-7 + 64 * 2.0 ** -52 * abs(c1) / max((ymax - c1) ** pw - (ymin - c1) ** pw, 1e-300) * (abs(c1) ** (pw - 1))
+                        else:
+                            F = math.log((y - c1) / (ymin - c1)) / math.log((ymax - c1) / (ymin - c1)) if y > c1 else float("nan")
+                            tol = 1e-7
+                        if not (ymin <= y <= ymax) or not abs(F - r) <= tol:
+                            ctx.fail("ctw-cdf:%s:%r:%s:%r:%r" % (pidname, energy, kname, r, u1),
+                                     "CTW inelasticity %r for draws (u1=%r, r=%r) in the %s-y region [%r, %r]: published cumulative distribution F(y) = %r, expected r" % (
+                                         y, u1, r, "low" if low else "high", ymin, ymax, F),
+                                     {"kind": "interaction", "model": "CTW", "pid": pidname, "energy": energy, "kind_in": kname, "secondaries": False,
+                                      "us_full": [u1, r, 0.5, 0.5], "ns_full": []})
 
 
 # ---------------------------------------------------------------------------- entry points
@@ -748,6 +911,7 @@ def run(ctx):
         ok = False
     lap("corr_tree")
     probes(ctx, pp, heavy=(not ok) or ctx.thorough or bool(changed))
+    distribution_probes(ctx, pp)
     lap("probes")
 
 
